@@ -31,7 +31,12 @@ fn path_last_ident(p: &syn::Path) -> Option<String> {
     p.segments.last().map(|s| s.ident.to_string())
 }
 
-pub fn find_fn<'a>(file: &'a syn::File, path: &str) -> Result<FnRef<'a>, String> {
+pub fn find_fn<'a>(file: &'a syn::File, path_in: &str) -> Result<FnRef<'a>, String> {
+    // `path#k` selects the k-th match (source order) when several impl blocks define the same name
+    let (path, pick): (&str, Option<usize>) = match path_in.rsplit_once('#') {
+        Some((p, k)) => (p, Some(k.parse().map_err(|_| format!("bad index in `{path_in}`"))?)),
+        None => (path_in, None),
+    };
     let mut found: Vec<FnRef<'a>> = Vec::new();
     if let Some(rest) = path.strip_prefix("trait ") {
         let (tr, name) = rest.split_once("::").ok_or(format!("bad trait path {path}"))?;
@@ -102,6 +107,13 @@ pub fn find_fn<'a>(file: &'a syn::File, path: &str) -> Result<FnRef<'a>, String>
                 }
             }
         }
+    }
+    if let Some(k) = pick {
+        let n = found.len();
+        if k < n {
+            return Ok(found.swap_remove(k));
+        }
+        return Err(format!("lost anchor: function `{path}` occurrence #{k} not found ({n} present)"));
     }
     match found.len() {
         0 => Err(format!("lost anchor: function `{path}` not found")),
